@@ -146,6 +146,9 @@ def covobs_cases(rng, n, ctx):
         a = rng.integers(-3, 4, size=(dim, dim)).astype(float)
         cov = a @ a.T + np.eye(dim)            # integer entries, positive definite by a margin
         kind = str(rng.choice(['valid', 'valid', 'valid1d', 'pipe', 'asym', 'indef', 'nmeans', 'semidef']))
+        # covariances of very different magnitude (exact powers of two): symmetry and definiteness do not depend on the scale
+        scale = 1.0 if kind == 'semidef' else float(rng.choice([1.0, 1.0, 2.0 ** -33, 2.0 ** -40, 2.0 ** 20]))
+        cov = cov * scale
         name = 'sys%d' % i
         means = [float(np.round(rng.uniform(-2, 2), 3)) for _ in range(dim)]
         arg = cov
@@ -157,11 +160,11 @@ def covobs_cases(rng, n, ctx):
             name = 'sys|1'
         elif kind == 'asym' and dim > 1:
             cov = cov.copy()
-            cov[0, 1] += 1.0
+            cov[0, 1] += 1.0 * scale
             arg = cov
         elif kind == 'indef':
             cov = cov.copy()
-            cov[dim - 1, dim - 1] = -1.0
+            cov[dim - 1, dim - 1] = -1.0 * scale
             arg = cov
         elif kind == 'nmeans':
             means = means + [0.5]
@@ -181,7 +184,8 @@ def closure_cases(rng, ctx, reps=1):
     cases = []
     ops = {'add': lambda a, b: a + b, 'sub': lambda a, b: a - b, 'mul': lambda a, b: a * b, 'div': lambda a, b: a / b}
     for rep in range(reps):
-        lays = gen.operand_layouts(rng, str(rng.choice(['same', 'multi_replica', 'second_ensemble', 'overlap'])), 4)
+        order_cls = ['prefix_ensembles', 'second_ensemble', 'multi_replica', 'overlap', 'same']
+        lays = gen.operand_layouts(rng, order_cls[rep % len(order_cls)], 4)
         o = [gen.make_obs(rng, lay, mean=float(rng.uniform(0.6, 2.0)), sigma=0.05) for lay in lays]
         partners = {
             'obs': lambda: o[2], 'cobs': lambda: pe.CObs(o[2], o[3]), 'int': lambda: 3, 'float': lambda: 1.75,
@@ -289,7 +293,7 @@ def run(ctx):
     ctx.exhaustive = False
     cases += construct_cases(rng, 150 if q else 2000, ctx)
     cases += covobs_cases(rng, 60 if q else 600, ctx)
-    cases += closure_cases(rng, ctx, reps=1 if q else 8)
+    cases += closure_cases(rng, ctx, reps=3 if q else 10)
     cases += operation_cases(rng, 34 if q else 340, ctx)
     ctx.sample({'closure_case': 'clo-0-obs-sub-complex-right', 'meaning': '(0.5-1.25j) - Obs must be a well-formed CObs'})
     ctx.sample({'constructor_request': cases[0]['req'], 'outcome': cases[0]['res']['k']})
